@@ -37,6 +37,11 @@ type VerifPlan struct {
 	ForceSuite13 uint16
 	// ForceGroup makes the TLS 1.3 server select this group (HRR if no share).
 	ForceGroup CurveID
+	// UseSiblingShare: when the client sent no share for ForceGroup but a hybrid share
+	// that contains the same key material (the X25519 half for X25519, the halves of the
+	// other hybrid for X25519MLKEM768), the server answers on ForceGroup right away,
+	// using that material, instead of sending a HelloRetryRequest.
+	UseSiblingShare bool
 	// ForceCurve12 makes the TLS <= 1.2 server really run ECDHE on this curve,
 	// whatever the client's supported_groups says.
 	ForceCurve12 CurveID
@@ -363,4 +368,24 @@ func VerifSetSeq(c *Conn, in, out uint64) {
 		out >>= 8
 	}
 	c.out.Unlock()
+}
+
+// verifSiblingShare: see VerifPlan.UseSiblingShare.
+func (c *Conn) verifSiblingShare(ch *clientHelloMsg, sel CurveID, ks *keyShare) *keyShare {
+	p := c.verif.plan
+	if p == nil || !p.UseSiblingShare || ks != nil {
+		return ks
+	}
+	const ek = mlkem.EncapsulationKeySize768
+	for _, s := range ch.keyShares {
+		switch {
+		case sel == X25519 && s.group == X25519MLKEM768 && len(s.data) == ek+x25519PublicKeySize:
+			return &keyShare{group: X25519, data: s.data[ek:]}
+		case sel == X25519 && s.group == X25519Kyber768Draft00 && len(s.data) == ek+x25519PublicKeySize:
+			return &keyShare{group: X25519, data: s.data[:x25519PublicKeySize]}
+		case sel == X25519MLKEM768 && s.group == X25519Kyber768Draft00 && len(s.data) == ek+x25519PublicKeySize:
+			return &keyShare{group: X25519MLKEM768, data: append(append([]byte(nil), s.data[x25519PublicKeySize:]...), s.data[:x25519PublicKeySize]...)}
+		}
+	}
+	return ks
 }
